@@ -15,7 +15,14 @@ pub enum Case {
     /// a type expression mentioning project types, at a site
     TypeAt { site: String, ty: RTy, mapped: bool },
     /// the same event emitted `n` times over `files` files with payloads of the given types
-    Events { n: usize, files: usize, same_payload: bool },
+    Events {
+        n: usize,
+        files: usize,
+        same_payload: bool,
+        /// a different event is emitted between the repeated ones (A B A B ...)
+        #[serde(default)]
+        interleave: bool,
+    },
     /// two declarations whose generated names collide
     Collision { kind: String },
     /// project shape variations: with/without events and channels
@@ -33,7 +40,7 @@ impl Case {
                 }
                 (typesite::build_project(site, std::slice::from_ref(ty), &gen::leaf_defs()), cfg)
             }
-            Case::Events { n, files, same_payload } => {
+            Case::Events { n, files, same_payload, interleave } => {
                 let mut fs: Vec<(String, String)> = vec![];
                 for f in 0..*files {
                     fs.push((format!("src/f{}.rs", f), String::from("use tauri::{AppHandle, Emitter};\n")));
@@ -45,6 +52,9 @@ impl Case {
                     let payload = if *same_payload || i == 0 { "Item { id: 1 }" } else if i == 1 { "42" } else { "true" };
                     let f = i % *files;
                     fs[f].1.push_str(&format!("pub fn emit_{}(app: &AppHandle) {{ app.emit(\"item-changed\", {}).unwrap(); }}\n", i, payload));
+                    if *interleave {
+                        fs[f].1.push_str(&format!("pub fn between_{}(app: &AppHandle) {{ app.emit(\"other-event\", {}).unwrap(); }}\n", i, i));
+                    }
                 }
                 (Project { files: fs, links: vec![] }, cfg)
             }
@@ -143,8 +153,8 @@ pub fn eval(case: &Case, zod: bool) -> (Vec<Violation>, bool, Option<String>) {
                     Case::TypeAt { site, ty, mapped } => {
                         v = v.field("site", site.clone()).field("mapped", mapped.to_string()).with_ty(ty).rank((ty.depth() * 1000 + ty.to_rust().len()) as u64);
                     }
-                    Case::Events { n, files, same_payload } => {
-                        v = v.field("events", format!("n{}f{}same{}", n, files, same_payload));
+                    Case::Events { n, files, same_payload, interleave } => {
+                        v = v.field("events", format!("n{}f{}same{}{}", n, files, same_payload, if *interleave { "-interleaved" } else { "" }));
                     }
                     Case::Collision { kind } => {
                         v = v.field("collision", kind.clone());
@@ -201,7 +211,10 @@ pub fn run(tier: Tier) -> CheckResult {
         for files in 1..=2 {
             for same in [true, false] {
                 if files <= n {
-                    cases.push(Case::Events { n, files, same_payload: same });
+                    cases.push(Case::Events { n, files, same_payload: same, interleave: false });
+                    if n >= 2 {
+                        cases.push(Case::Events { n, files, same_payload: same, interleave: true });
+                    }
                 }
             }
         }
